@@ -94,7 +94,7 @@ def dict_to_stix2(stix_dict, allow_custom=False, interoperability=False, version
             if (
                 key_id.startswith('extension-definition--') and
                 isinstance(ext_def, collections.abc.Mapping) and
-                'property-extension' not in ext_def.get('extension_type', '')
+                ext_def.get('extension_type') in ('new-sdo', 'new-sco', 'new-sro')
             ):
                 # prevents ParseError for unregistered objects when
                 # allow_custom=False and the extension defines a new object
